@@ -55,7 +55,9 @@ def recipe(rnd, nsurf=None, conics=True):
             "aperture": ap, "ap_value": None,
             # vignetting factors on the outer field (declared on one side of the axis, as usual):
             # the mirrored field point -Hy must be compressed like +Hy
-            "vig": (rnd.uniform(0.05, 0.4), rnd.uniform(0.05, 0.4)) if rnd.random() < 0.3 else None}
+            "vig": (rnd.uniform(0.05, 0.4), rnd.uniform(0.05, 0.4)) if rnd.random() < 0.3 else None,
+            # an annular clear aperture on one surface (both of its radii are lengths of the prescription)
+            "annulus": (rnd.randrange(n), epd * rnd.uniform(0.8, 1.5), rnd.uniform(0.2, 0.5)) if rnd.random() < 0.3 else None}
 
 
 def aperture_value(rc):
@@ -90,8 +92,14 @@ def build(rc, scale=1.0, dummy=None):
         t1 = None
         if dummy is not None and dummy[0] == j:
             t1 = t * dummy[1]
+        extra = {}
+        if rc.get("annulus") and rc["annulus"][0] == j:
+            from optiland.physical_apertures import RadialAperture
+            rm = rc["annulus"][1] * scale
+            extra["aperture"] = RadialAperture(r_max=rm, r_min=rm * rc["annulus"][2])
         o.add_surface(index=idx, radius=s["R"] * scale, conic=s["k"], thickness=t if t1 is None else t1,
-                      material=IdealMaterial(n=s["n"], k=0) if s["n"] != 1.0 else "air", is_stop=(j + 1 == rc["stop"]))
+                      material=IdealMaterial(n=s["n"], k=0) if s["n"] != 1.0 else "air", is_stop=(j + 1 == rc["stop"]),
+                      **extra)
         idx += 1
         if t1 is not None:
             o.add_surface(index=idx, thickness=t - t1,
@@ -147,7 +155,13 @@ def scalars(o):
     f2 = float(np.ravel(o.paraxial.f2())[0])
     F2 = float(np.ravel(o.paraxial.F2())[0])
     se = [float(v) for v in np.ravel(o.aberrations.seidels())]
-    return [dy(f2), dy(F2)] + [dy(v) for v in se]
+    # the radii of physical apertures are lengths of the prescription too
+    ap = []
+    for sf in o.surface_group.surfaces:
+        a = getattr(sf, "aperture", None)
+        if a is not None and math.isfinite(float(a.r_max)):
+            ap += [float(a.r_max), float(a.r_min)]
+    return [dy(f2), dy(F2)] + [dy(v) for v in se] + [dy(v) for v in ap]
 
 
 def meta_case(args):
